@@ -30,6 +30,8 @@ int main (int argc, char **argv) {
 		if (verdicts[key]++ == 0 && r.v.kind != 0) {
 			run (tape.data (), tape.size (), prop, fam, &r, dump, sizeof dump);
 			printf ("---- case %ld: %s\n%s\n", i, key, dump);
+			char fn[200]; snprintf (fn, sizeof fn, "/tmp/smoke_%d_%d_%d.tape", prop, fam, r.v.kind);
+			FILE *tf = fopen (fn, "wb"); if (tf) { fwrite (tape.data (), 1, tape.size (), tf); fclose (tf); printf ("tape saved to %s\n", fn); }
 		}
 		owned += r.owned;
 	}
